@@ -57,15 +57,16 @@ class Namespace:
             start = self._get_attribute(attrs_d, "start")
             attrs_d["start_parsed"] = _parse_psc_chapter_start(start)
 
-            context = self._get_context()["psc_chapters"]
-            context["chapters"].append(util.FeedParserDict(attrs_d))
+            context = self._get_context().get("psc_chapters")
+            if context is not None:
+                context["chapters"].append(util.FeedParserDict(attrs_d))
 
 
 format_ = re.compile(r"^((\d{2}):)?(\d{2}):(\d{2})(\.(\d{3}))?$")
 
 
 def _parse_psc_chapter_start(start):
-    m = format_.match(start)
+    m = format_.match(start or "")
     if m is None:
         return None
 
